@@ -47,6 +47,8 @@ pub struct Ctx {
     /// nodes created (or re-requested) on the current path, in order (used by integer mode)
     pub touched: Vec<u32>,
     pub fun_used: bool,
+    /// fold arithmetic on literal constants (used by entries that pin some inputs to literals)
+    pub fold: bool,
 }
 
 thread_local! {
@@ -62,11 +64,26 @@ pub fn reset_arena() {
         c.path.clear();
         c.touched.clear();
         c.fun_used = false;
+        c.fold = false;
         c.decisions_budget_hit = false;
     });
 }
 
+pub fn set_fold(on: bool) { CTX.with(|c| c.borrow_mut().fold = on); }
+fn folded(c: &Ctx, n: &Node) -> Option<f64> {
+    if !c.fold { return None; }
+    let k = |i: u32| -> Option<f64> { match c.nodes[i as usize] { Node::Const(b) => Some(f64::from_bits(b)), _ => None } };
+    let v = match n {
+        Node::Bin(op, a, b) => { let (x, y) = (k(*a)?, k(*b)?); match op { Op2::Add => x + y, Op2::Sub => x - y, Op2::Mul => x * y, Op2::Div => if y != 0.0 { x / y } else { return None }, _ => return None } }
+        Node::Un(Op1::Neg, a) => -k(*a)?,
+        Node::Un(Op1::Abs, a) => k(*a)?.abs(),
+        _ => return None,
+    };
+    // only exact results (dyadic values of moderate size) are folded
+    if v.is_finite() && (v * 1048576.0).fract() == 0.0 && v.abs() < 1e9 { Some(v) } else { None }
+}
 pub fn mk(n: Node) -> Sym {
+    let n = { let f = CTX.with(|c| folded(&c.borrow(), &n)); match f { Some(v) => Node::Const((if v == 0.0 { 0.0 } else { v }).to_bits()), None => n } };
     CTX.with(|c| {
         let mut c = c.borrow_mut();
         if let Some(&i) = c.intern.get(&n) {
